@@ -296,7 +296,11 @@ def replay(case, lib, inputs, free, label):
             except Exception: pre_ok = True
             if not pre_ok: return False, {'outputs': 'rounded inputs violate the precondition', 'label': label}
         if any(v is None for k, vs in O.items() if isinstance(vs, list) for v in vs):
-            return True, {'outputs': 'non-finite output from the real code', 'label': label}
+            # inf/NaN from the real code confirms a reachable division by zero; for any other claim it only means the double/float
+            # run overflowed where the exact-real model does not, which confirms nothing
+            if label.startswith('no floating-point division by zero'):
+                return True, {'outputs': 'non-finite output from the real code', 'label': label}
+            return False, {'outputs': 'non-finite output from the real code (overflow in the native run): claim not evaluable', 'label': label}
         X = Ctx(None, None, model=free, conc=True); X.lib = lib; X.T = case.T
         S.TOL[0] = Fraction(1, 10 ** 9) if case.T == 'd' else Fraction(1, 10 ** 4)
         try:
